@@ -3,9 +3,10 @@ Correspondence: Model/Base.v (and the NumPy primitive model of Base/Tensor.v) vs
 reshape / moveaxis / transpose dispatch, bit-exact, signed modes, size-0 / size-1 modes, invalid requests.
 Predicates (Python transcriptions of the theorems, evaluated on the implementation's outputs): documented layout formula,
 round trips, exact success domain, dtype/bytes preservation for every dtype and memory layout."""
-import itertools, random
+import itertools, os, random, re, shutil, subprocess, zlib
 import numpy as np
 from harness import common as C
+from harness.props import C01_ast
 
 # Corr.C01.failing returns the ids of failing cases as Z (binary; a unary nat of depth ~50000 cannot be read back from
 # the VM); Z_scope is opened so that the list prints without scope delimiters, as common.run_case_shards expects.
@@ -450,7 +451,9 @@ def spec_predicate(d, orig, out):
     return None
 
 
-DTYPES = [np.bool_, np.int8, np.int16, np.int32, np.uint8, np.uint64, np.float16, np.float32, np.float64, np.complex64, np.complex128, object]
+DTYPES = [np.bool_, np.int8, np.int16, np.int32, np.uint8, np.uint64, np.float16, np.float32, np.float64, np.complex64, np.complex128, object,
+          np.dtype(">f8"), np.dtype(">i2")]          # the last two: non-native byte order (a copy through a native dtype is a re-typing)
+ROT_STEP = 11                                          # coprime to len(DTYPES) * len(LAYOUTS) = 56: the rotation visits every combination
 LAYOUTS = ["C", "F", "strided", "neg"]
 _POOL = {}
 
@@ -485,6 +488,13 @@ def value_pool(dtype, n):
     return vals[:n]
 
 
+def dt_code(dtype):
+    """integer code of a dtype (byte order included) for the typed model of Model/BasePy.v"""
+    table = _POOL.setdefault("__codes__", {("|O" if t is object else np.dtype(t).str): i for i, t in enumerate(DTYPES + [np.int64])})
+    key = np.dtype(dtype).str
+    return table[key] if key in table else 900 + zlib.crc32(key.encode()) % 90
+
+
 def relayout(a, layout):
     """a view / copy with the same logical content in another memory layout"""
     if a.ndim == 0 or layout == "C":
@@ -502,9 +512,10 @@ def relayout(a, layout):
     raise KeyError(layout)
 
 
-def dtype_predicate(fn, a_int, out_int, dtype, layout="C"):
+def dtype_predicate(fn, a_int, out_int, dtype, layout="C", codes=None):
     """re-run the same call on another dtype / memory layout: the output must be the same
-    re-arrangement (positions taken from the int64 run) of the same bytes, dtype unchanged."""
+    re-arrangement (positions taken from the int64 run) of the same bytes, dtype unchanged.
+    codes (a list) receives the dtype codes of the input and of the result of the re-run."""
     n = a_int.size
     lab = a_int.ravel()
     vals = value_pool(dtype, int(lab.max()) + 1 if n else 0)
@@ -517,6 +528,8 @@ def dtype_predicate(fn, a_int, out_int, dtype, layout="C"):
         return f"raised on dtype {np.dtype(dtype)} layout {layout}: {v}"
     if not isinstance(v, np.ndarray):
         return f"result is not an ndarray but {type(v).__name__}"
+    if codes is not None:
+        codes[:] = [dt_code(a.dtype), dt_code(v.dtype)]
     if v.dtype != a.dtype or v.dtype.str != a.dtype.str:
         return f"dtype changed {a.dtype} -> {v.dtype}"
     if v.shape != out_int.shape:
@@ -530,6 +543,160 @@ def dtype_predicate(fn, a_int, out_int, dtype, layout="C"):
     if not same:
         return f"not the same re-arrangement of bytes for dtype {np.dtype(dtype)} layout {layout}"
     return None
+
+
+# ----------------------------------------------------------------------------- ast tie
+TIE_HEADER = """From Coq Require Import List ZArith Bool Uint63. Import ListNotations.
+From TLV Require Import Base.Tensor Model.BaseExt Model.BasePy Corr.C01.
+"""
+TIE_TACTIC = """Ltac tie_mon := repeat match goal with |- context [rbind ?r _] => destruct r; cbn [rbind] end.
+"""
+# the box on which a regenerated function is compared with the hand model when the universal proof fails
+BOX = {
+    "tensor_to_vec": ("s", "box_shapes", "F (arange s)"),
+    "vec_to_tensor": ("'(s, z)", "flat_map (fun s => map (pair s) (box_targets s)) box_shapes", "F (arange s) z"),
+    "unfold": ("'(s, m)", "flat_map (fun s => map (pair s) (box_modes s)) box_shapes", "F (arange s) m"),
+    "fold": ("'(s, m, z)", "flat_map (fun s => flat_map (fun m => map (fun z => (s, m, z)) (box_targets s)) (box_modes s)) box_shapes",
+             "F (arange s) m z"),
+    "partial_unfold": ("'(s, m, sb, se, rav)",
+                       "flat_map (fun s => flat_map (fun m => flat_map (fun sb => flat_map (fun se => [(s, m, sb, se, true); (s, m, sb, se, false)]) "
+                       "(box_skips s)) (box_skips s)) (box_modes s)) box_shapes", "F (arange s) m sb se rav"),
+    "partial_fold": ("'(s, m, z, sb)",
+                     "flat_map (fun s => flat_map (fun m => flat_map (fun z => map (fun sb => (s, m, z, sb)) (box_skips s)) (box_targets s)) (box_modes s)) box_shapes",
+                     "F (arange s) m z sb 0%Z"),
+    "partial_tensor_to_vec": ("'(s, sb, se)", "flat_map (fun s => flat_map (fun sb => map (fun se => (s, sb, se)) (box_skips s)) (box_skips s)) box_shapes",
+                              "F (arange s) sb se"),
+    "partial_vec_to_tensor": ("'(s, z, sb)", "flat_map (fun s => flat_map (fun z => map (fun sb => (s, z, sb)) (box_skips s)) (box_targets s)) box_shapes",
+                              "F (arange s) z sb 0%Z"),
+    "matricize": ("'(s, r, c)",
+                  "flat_map (fun s => flat_map (fun r => (s, r, None) :: map (fun c => (s, r, Some c)) (box_mode_lists s)) (box_mode_lists s)) "
+                  "(flat_map (lists_over [0; 1; 2; 3]%nat) [0; 1; 2]%nat ++ [[2; 3; 2]; [1; 2; 3]; [0; 2; 1]]%nat)", "F (arange s) r c"),
+}
+
+
+def _coqc(fn, timeout=600):
+    return subprocess.run(["timeout", str(timeout), "coqc", "-w", "none", "-R", os.path.join(C.COQ, "theories"), "TLV", fn],
+                          capture_output=True, text=True, cwd=os.path.dirname(fn))
+
+
+def run_ast_tie(chk):
+    """Regenerate the model of every function of tensorly/base.py from the CURRENT source (harness/props/C01_ast.py) and
+    re-prove, for ALL backends and arguments, that it is the hand model g_f of Model/BasePy.v (to which the theorems
+    C01_g_* of Props/C01.v apply).  A function whose universal proof fails is compared with g_f on a finite box of requests
+    on the NumPy backend: a difference is a broken tie (with the request); none is recorded as `box-only`.
+    A construct the translator does not know is a broken tie (fail closed)."""
+    src_path = os.path.join(C.REPO, "tensorly", "base.py")
+    d = os.path.join(C.BUILD, "cases", "C01", f"ast_{os.getpid()}")
+    shutil.rmtree(d, ignore_errors=True); os.makedirs(d, exist_ok=True)
+    res = {"proved_universally": [], "box_only": [], "untranslated": [], "skipped": []}
+    try:
+        src = open(src_path).read()
+        items = C01_ast.translate(src)
+        dflt = C01_ast.defaults(src)
+    except (SyntaxError, OSError) as e:
+        chk.broken.append({"what": "ast tie: tensorly/base.py cannot be read / parsed", "detail": str(e)})
+        chk.cov["ast_tie"] = res
+        return res
+    for name, text, why in items:
+        if text is None:
+            res["untranslated"].append(f"{name}: {why}")
+            chk.broken.append({"what": f"ast tie: tensorly.base.{name} is outside the translated fragment (the model cannot be regenerated from the source)",
+                               "detail": why})
+    if dflt != C01_ast.DOCUMENTED_DEFAULTS:
+        diff = {f"{k[0]}.{k[1]}": (dflt.get(k), C01_ast.DOCUMENTED_DEFAULTS.get(k)) for k in set(dflt) | set(C01_ast.DOCUMENTED_DEFAULTS)
+                if dflt.get(k, "absent") != C01_ast.DOCUMENTED_DEFAULTS.get(k, "absent")}
+        chk.broken.append({"what": "ast tie: default argument values of tensorly/base.py differ from the documented ones (source value, documented value)",
+                           "detail": diff})
+    # a function that calls an untranslated one cannot be regenerated either (its own tie is then not attempted)
+    missing = {name for name, text, _ in items if text is None}
+    items = [(name, (None if text is not None and any(f"ast_{m_} " in text for m_ in missing) else text), why) for name, text, why in items]
+    res["untranslated"] += [f"{name}: calls an untranslated function" for name, text, _ in items if text is None and name not in missing]
+    defs = "".join(text for _, text, _ in items if text is not None)
+    ok_names = [name for name, text, _ in items if text is not None]
+    procs = []
+    for name in ok_names:
+        sig = C01_ast.SIGS[name]
+        binders = " ".join(f"({p_} : {ty})" for p_, ty in sig)
+        args = " ".join(p_ for p_, _ in sig)
+        unf = ", ".join([f"ast_{n}" for n in ok_names] + [f"g_{n}" for n in ok_names])
+        goal = (f"Goal forall (T : Type) (B : backend T) {binders}, ast_{name} B {args} = g_{name} B {args}.\n"
+                f"Proof. intros. first [ reflexivity | unfold {unf}; cbv zeta; tie_mon; reflexivity ]. Qed.\n")
+        fn = os.path.join(d, f"Tie_{name}.v")
+        open(fn, "w").write(TIE_HEADER + defs + TIE_TACTIC + goal)
+        procs.append((name, fn))
+    nproc = max(1, int(os.environ.get("VERIF_NPROC", "4")))
+    results = {}
+    for i in range(0, len(procs), nproc):
+        batch = [(name, fn, subprocess.Popen(["timeout", "300", "coqc", "-w", "none", "-R", os.path.join(C.COQ, "theories"), "TLV", fn],
+                                             stdout=subprocess.PIPE, stderr=subprocess.PIPE, text=True, cwd=d)) for name, fn in procs[i:i + nproc]]
+        for name, fn, p_ in batch:
+            out, err = p_.communicate()
+            results[name] = (p_.returncode, out + err, fn)
+    for name, (rc, log, fn) in results.items():
+        if rc == 0:
+            res["proved_universally"].append(name)
+            continue
+        if rc in (124, 137, -9, -15):
+            res["skipped"].append(name)
+            continue
+        # the universal proof failed: compare on the box
+        pat, dom, call = BOX[name]
+        bfn = os.path.join(d, f"Box_{name}.v")
+        f1 = call.replace("F ", f"ast_{name} P0 ", 1); f2 = call.replace("F ", f"g_{name} P0 ", 1)
+        open(bfn, "w").write(TIE_HEADER + defs + "Open Scope Z_scope.\n"
+                             f"Definition bad := filter (fun x => let {pat} := x in differ ({f1}) ({f2})) ({dom}).\n"
+                             "Eval vm_compute in (Z.of_nat (length bad), firstn 2 bad).\n")
+        r = _coqc(bfn)
+        m = re.search(r"=\s*\((\d+),", r.stdout.replace("\n", " "))
+        if r.returncode in (124, 137, -9, -15):
+            res["skipped"].append(name)
+        elif r.returncode != 0 or not m:
+            chk.broken.append({"what": f"ast tie: the model regenerated from tensorly.base.{name} is not the hand model g_{name} (neither proof nor box evaluation go through)",
+                               "detail": {"regenerated": [t for n_, t, _ in items if n_ == name][0], "coqc": (log + r.stdout + r.stderr)[-1500:]}})
+        elif int(m.group(1)) > 0:
+            chk.broken.append({"what": f"ast tie: the model regenerated from tensorly.base.{name} DIFFERS from the hand model g_{name} of Model/BasePy.v "
+                                       f"on {m.group(1)} requests of the box (first ones shown)",
+                               "detail": {"regenerated": [t for n_, t, _ in items if n_ == name][0], "differing_requests": r.stdout[-800:]}})
+        else:
+            res["box_only"].append(name)
+    if not any(b.get("what", "").startswith("ast tie") for b in chk.broken):
+        shutil.rmtree(d, ignore_errors=True)
+    chk.cov["ast_tie"] = res
+    chk.checker_cmds.append("coqc on goals generated from the Python ast of tensorly/base.py: forall backend and arguments, ast_f = g_f (Model/BasePy.v)")
+    return res
+
+
+
+def defaults_predicate(chk):
+    """the harness passes every argument explicitly; here the optional ones are OMITTED and the result must be the one of
+    the documented defaults (partial_*: skip_begin=1, skip_end=0, mode=0, ravel_tensors=False; matricize: column_modes=None)"""
+    import tensorly as tl
+    from tensorly import base
+    for shape in [(2, 3, 2), (3, 2, 2, 2), (2, 1, 3)]:
+        a = labelled(shape)
+        try:
+            u = tl.partial_unfold(a, 1, 1, 0, False); v = tl.partial_tensor_to_vec(a, 1, 0)
+        except Exception:      # the explicit calls themselves are judged by the main stream
+            continue
+        pairs = [
+            ("partial_unfold", "(tensor)", lambda: tl.partial_unfold(a), lambda: tl.partial_unfold(a, 0, 1, 0, False)),
+            ("partial_unfold", "(tensor, 1)", lambda: tl.partial_unfold(a, 1), lambda: tl.partial_unfold(a, 1, 1, 0, False)),
+            ("partial_unfold", "(tensor, 1, 0)", lambda: tl.partial_unfold(a, 1, 0), lambda: tl.partial_unfold(a, 1, 0, 0, False)),
+            ("partial_fold", "(unfolded, 1, shape)", lambda: tl.partial_fold(u, 1, shape), lambda: tl.partial_fold(u, 1, shape, 1, 0)),
+            ("partial_tensor_to_vec", "(tensor)", lambda: tl.partial_tensor_to_vec(a), lambda: tl.partial_tensor_to_vec(a, 1, 0)),
+            ("partial_vec_to_tensor", "(matrix, shape)", lambda: tl.partial_vec_to_tensor(v, shape), lambda: tl.partial_vec_to_tensor(v, shape, 1, 0)),
+            ("matricize", "(tensor, [1])", lambda: base.matricize(a, [1]), lambda: base.matricize(a, [1], None)),
+        ]
+        for name, how, f_short, f_full in pairs:
+            r1 = C.call_impl(lambda _: f_short(), None); r2 = C.call_impl(lambda _: f_full(), None)
+            if ("crash", "timeout") in (r1, r2):
+                continue
+            chk.cov["evaluations"] += 1
+            same = r1[0] == r2[0] and (r1[0] != "ok" or (np.asarray(r1[1]).shape == np.asarray(r2[1]).shape and np.array_equal(r1[1], r2[1])))
+            if not same:
+                chk.finding(f"tensorly.base.{name}", {"shape": list(shape), "descr": repr((name + how,)), "dtype": "int64", "layout": "C"},
+                            f"{name}{how} with the optional arguments omitted differs from the call with the documented defaults", "C01_documented_defaults")
+
 
 
 def entry_point(d):
@@ -548,26 +715,30 @@ def judge(d, shape, combos):
         return None, []
     msgs = []
     msg = spec_predicate(d, orig, out)
+    # dtype codes handed to the typed model: those of the first re-run on another dtype; of the labelled run otherwise
+    codes = [dt_code(a_in.dtype), dt_code(out[1].dtype) if out[0] == "ok" and isinstance(out[1], np.ndarray) else dt_code(a_in.dtype)]
     if msg:
         msgs.append((msg, "C01_layout_roundtrip", {"dtype": "int64", "layout": "C"}))
     elif out[0] == "ok":
-        for dt, lay in combos:
-            m2 = dtype_predicate(prim, a_in, np.asarray(out[1]), dt, lay)
+        for j, (dt, lay) in enumerate(combos):
+            m2 = dtype_predicate(prim, a_in, np.asarray(out[1]), dt, lay, codes if j == 0 else None)
             if m2:
                 msgs.append((m2, "C01_dtype_bytes", {"dtype": "object" if dt is object else str(np.dtype(dt)), "layout": lay}))
                 break
-    return (a_in, orig, out), msgs
+    return (a_in, orig, out, tuple(codes)), msgs
 
 
 def run(chk):
     rng = random.Random(chk.seed)
     chk.build_proofs()
+    run_ast_tie(chk)
     C.reset_backends()
     cases, meta = [], []
     tier = chk.tier
     rot = {}
     all_combos = [(dt, lay) for dt in DTYPES for lay in LAYOUTS]
     seen_combo = set()
+    defaults_predicate(chk)
     corpus = load_corpus()
     stream = itertools.chain(((tuple_deep(c["descr"]), tuple(c["shape"])) for c in corpus), gen_cases(tier, rng))
     for d, shape in stream:
@@ -575,16 +746,16 @@ def run(chk):
         # four rotating dtypes on the C layout plus every other layout on a rotating dtype (seven re-runs per case)
         k = rot.get(d[0], 0); rot[d[0]] = k + 1
         if tier == "quick":
-            combos = [all_combos[(k * 7) % len(all_combos)]]
+            combos = [all_combos[(k * ROT_STEP) % len(all_combos)]]
         else:
             combos = [(DTYPES[(4 * k + j) % len(DTYPES)], "C") for j in range(4)] + [(DTYPES[(k + j) % len(DTYPES)], lay) for j, lay in enumerate(LAYOUTS[1:])]
         res, msgs = judge(d, shape, combos)
         if res is None:
             chk.hist("outcome", "no-input (the unfolding that makes the input is rejected, or a per-case timeout)")
             continue
-        a_in, orig, out = res
+        a_in, orig, out, codes = res
         cid = len(cases)
-        cases.append(f"({cid}%uint63, {oplit(d)}, {arr_lit(a_in)}, {res_arr(out)})")
+        cases.append(f"({cid}%uint63, {oplit(d)}, {arr_lit(a_in)}, {res_arr(out)}, ({C.z(codes[0])}, {C.z(codes[1])}))")
         meta.append((d, shape))
         chk.count(key=(d, shape), nontrivial=orig.size > 1 or out[0] != "ok")
         chk.hist("function", d[0]); chk.hist("order", len(shape)); chk.hist("outcome", out[0])
@@ -593,7 +764,7 @@ def run(chk):
         if out[0] == "ok":
             chk.cov["evaluations"] += len(combos)
             for c_ in combos:
-                seen_combo.add((d[0], "object" if c_[0] is object else np.dtype(c_[0]).name, c_[1]))
+                seen_combo.add((d[0], "object" if c_[0] is object else np.dtype(c_[0]).str, c_[1]))
         if cid % 2999 == 0:
             chk.sample({"call": repr(d), "input_shape": list(shape), "outcome": out[0],
                         "output": (np.asarray(out[1]).tolist() if out[0] == "ok" and np.asarray(out[1]).size <= 24 else str(out[1])[:80])})
@@ -660,8 +831,15 @@ def replay(payload):
     C.reset_backends()
     d = tuple_deep(ast.literal_eval(inp["descr"]))
     shape = tuple(inp["shape"])
+    if len(d) == 1 and "(" in d[0]:          # a finding of defaults_predicate
+        class _Chk:
+            cov = {"evaluations": 0}; found = []
+            def finding(self, *a): self.found.append(a)
+        c_ = _Chk(); defaults_predicate(c_)
+        print("replay:", d, "->", c_.found[0][2] if c_.found else "holds")
+        return 1 if c_.found else 0
     dtn = inp.get("dtype", "int64")
-    combos = [] if dtn == "int64" else [(object if dtn == "object" else np.dtype(dtn).type, inp.get("layout", "C"))]
+    combos = [] if dtn == "int64" else [(object if dtn == "object" else np.dtype(dtn), inp.get("layout", "C"))]
     res, msgs = judge(d, shape, combos)
     if res is None:
         print("replay:", d, shape, "-> the unfolding that makes the input is rejected")
